@@ -101,6 +101,8 @@ def show(t, depth=0):
         return "coll@%s" % site_str(t[1])
     if k == "closure":
         return "closure:%s" % (t[1],)
+    if k == "idof":
+        return "%s.%s{=%s}" % (show(t[1], d), t[2], show(t[3], d))
     if k == "loopvar":
         return "loopout(%s)" % t[2]
     return "%s(%s)" % (k, ", ".join(show(a, d) if isinstance(a, tuple) else repr(a) for a in t[1:]))
@@ -110,3 +112,25 @@ def site_str(site):
     if isinstance(site, tuple) and len(site) >= 2:
         return "%s:%s" % (site[0], site[1])
     return str(site)
+
+
+def plain(t):
+    """value view of a term: ('idof', obj, attr, value) -> value"""
+    if not isinstance(t, tuple):
+        return t
+    if t and t[0] == "idof":
+        return plain(t[3])
+    if t and t[0] in ("const", "merge", "closure", "func", "class", "mod",
+                      "builtin", "cfg", "db", "param"):
+        return t
+    changed = False
+    out = []
+    for x in t:
+        if isinstance(x, tuple):
+            y = plain(x)
+            if y is not x:
+                changed = True
+            out.append(y)
+        else:
+            out.append(x)
+    return tuple(out) if changed else t
